@@ -54,6 +54,7 @@ type Run struct {
 	known        map[string]int
 	knownWhat    map[string]string
 	inconclusive []string
+	incomplete   []string
 	start        time.Time
 	dir          string
 	findings     []Finding
@@ -181,6 +182,13 @@ func (r *Run) Inconclusive(msg string) {
 	r.mu.Unlock()
 }
 
+// Incomplete records that the monitor could not cover what it must (exit 3).
+func (r *Run) Incomplete(msg string) {
+	r.mu.Lock()
+	r.incomplete = append(r.incomplete, msg)
+	r.mu.Unlock()
+}
+
 // Violate records a violation unless an open known finding lists its class.
 func (r *Run) Violate(v Violation) {
 	r.mu.Lock()
@@ -256,7 +264,7 @@ func (r *Run) Finish() int {
 	evd := map[string]any{
 		"property_id": r.Prop, "tier": r.Tier, "seed": r.Seed, "level": r.Level,
 		"coverage": cov, "wall_s": time.Since(r.start).Seconds(), "violations": r.nviol,
-		"assumptions": append([]string{"the Go toolchain, runtime and race detector", "the harness oracles in /verif/harness (reference models written from the property statement)"}, r.assumptions...),
+		"assumptions":        append([]string{"the Go toolchain, runtime and race detector", "the harness oracles in /verif/harness (reference models written from the property statement)"}, r.assumptions...),
 		"known_findings_hit": r.known,
 	}
 	code := 0
@@ -273,6 +281,10 @@ func (r *Run) Finish() int {
 		if err := os.WriteFile(tmp, b, 0o644); err == nil {
 			_ = os.Rename(tmp, filepath.Join(r.dir, "evidence", r.Prop+".json"))
 		}
+	}
+	for _, m := range r.incomplete {
+		fmt.Printf("INCOMPLETE property=%s %s\n", r.Prop, m)
+		code = 3
 	}
 	for _, id := range knownIDs {
 		fmt.Printf("KNOWN-FINDING: property=%s %s: %s (%d cases this run)\n", r.Prop, id, r.knownWhat[id], r.known[id])
@@ -325,4 +337,96 @@ func Guard(f func()) (panicked string) {
 	}()
 	f()
 	return ""
+}
+
+// dump is the serialised state a child process hands to its parent.
+type dump struct {
+	Evals        int64               `json:"evals"`
+	Distinct     []string            `json:"distinct"`
+	Samples      []any               `json:"samples"`
+	Counters     map[string]int64    `json:"counters"`
+	Sets         map[string][]string `json:"sets"`
+	Violations   []Violation         `json:"violations"`
+	NViol        int                 `json:"nviol"`
+	Known        map[string]int      `json:"known"`
+	KnownWhat    map[string]string   `json:"known_what"`
+	Inconclusive []string            `json:"inconclusive"`
+	Incomplete   []string            `json:"incomplete"`
+}
+
+// DumpTo writes the run's state to path (child side).
+func (r *Run) DumpTo(path string) error {
+	r.mu.Lock()
+	defer r.mu.Unlock()
+	d := dump{Evals: r.evals, Samples: r.samples, Counters: r.counters, Sets: map[string][]string{}, Violations: r.violations, NViol: r.nviol,
+		Known: r.known, KnownWhat: r.knownWhat, Inconclusive: r.inconclusive, Incomplete: r.incomplete}
+	for k := range r.distinct {
+		d.Distinct = append(d.Distinct, k)
+	}
+	for name, m := range r.sets {
+		for k := range m {
+			d.Sets[name] = append(d.Sets[name], k)
+		}
+	}
+	b, err := json.Marshal(d)
+	if err != nil {
+		for i := range d.Violations {
+			d.Violations[i].Witness = fmt.Sprintf("%+v", d.Violations[i].Witness)
+		}
+		d.Samples = nil
+		b, err = json.Marshal(d)
+		if err != nil {
+			return err
+		}
+	}
+	return os.WriteFile(path, b, 0o644)
+}
+
+// MergeFrom adds a child's state to this run (parent side).
+func (r *Run) MergeFrom(path string) error {
+	b, err := os.ReadFile(path)
+	if err != nil {
+		return err
+	}
+	var d dump
+	if err := json.Unmarshal(b, &d); err != nil {
+		return err
+	}
+	r.mu.Lock()
+	defer r.mu.Unlock()
+	r.evals += d.Evals
+	for _, k := range d.Distinct {
+		r.distinct[k] = struct{}{}
+	}
+	for _, s := range d.Samples {
+		if len(r.samples) < 8 {
+			r.samples = append(r.samples, s)
+		}
+	}
+	for k, v := range d.Counters {
+		r.counters[k] += v
+	}
+	for name, ks := range d.Sets {
+		m := r.sets[name]
+		if m == nil {
+			m = map[string]struct{}{}
+			r.sets[name] = m
+		}
+		for _, k := range ks {
+			m[k] = struct{}{}
+		}
+	}
+	r.nviol += d.NViol
+	for _, v := range d.Violations {
+		if len(r.violations) < 5 {
+			r.violations = append(r.violations, v)
+		}
+	}
+	for k, v := range d.Known {
+		r.known[k] += v
+		r.knownWhat[k] = d.KnownWhat[k]
+	}
+	r.inconclusive = append(r.inconclusive, d.Inconclusive...)
+	r.incomplete = append(r.incomplete, d.Incomplete...)
+	return nil
 }
